@@ -225,6 +225,29 @@ def check_rt(case, ctx):
     if [np.first, np.von, np.last, np.jr] != [[t[2]], [], [t[0], t[1]], []]:
         worst = next((f for f in ("url-with-tex-active-character", "math-span-ending-in-escaped-backslash") if any(feature(x) == f for x in good)), "")
         out.append(Violation("roundtrip", "C18:roundtrip:nameparts" + (":" + worst if worst else ""), dict(texts=good, got=srepr(np))))
+    # an entry whose field keys repeat (built in code, or taken out of a duplicate-field block): EVERY field is converted, which
+    # a whole-pipeline round trip cannot see when both directions skip the same field - so each encoded value is decoded on
+    # its own, in a fresh single-field entry (seed C18-k)
+    if not out:
+        from bibtexparser import model as M
+        from bibtexparser.library import Library
+        ctx.mon("duplicate_field_keys_each_converted")
+        keys = ["title", "title", "note", "title", "Note"]
+        vals = [t[0], t[1], t[2], t[0], t[1]]
+        dl = Library([M.Entry("article", "dups", [M.Field(k, v, i) for i, (k, v) in enumerate(zip(keys, vals))], 0, "rawd")])
+        st, d1 = sp.escape(lambda: enc.transform(dl))
+        ctx.ran()
+        if st == "raise" or not d1.entries or len(d1.entries[0].fields) != len(keys):
+            out.append(Violation("roundtrip", "C18:roundtrip:duplicate-field-keys:encode-failed", dict(texts=good, got=srepr(d1))))
+        else:
+            for i, f in enumerate(d1.entries[0].fields):
+                st, d2 = sp.escape(lambda: dec.transform(Library([M.Entry("article", "one", [M.Field("title", f.value, 0)], 0, "raw1")])))
+                ctx.ran()
+                back = d2.entries[0].fields[0].value if st == "ok" and d2.entries else None
+                if f.key != keys[i] or back != vals[i]:
+                    out.append(Violation("roundtrip", "C18:roundtrip:duplicate-field-keys:field-not-converted",
+                                         dict(index=i, key=f.key, text=vals[i], encoded=srepr(f.value), decoded_alone=srepr(back), opts=case["opts"])))
+                    break
     ctx.mon("roundtrip_string_block")
     s = l2.blocks[0]
     if not isinstance(s.value, str) or s.value != t[2]:
